@@ -193,6 +193,7 @@ type Val struct {
 	Seq   []*Val // definite content sequence of a slice (nil = unknown)
 	SeqOK bool
 	exd   int      // depth of Ex
+	Aux   *Val     // for len(x): the collection x (rules inspect what it contains)
 	bnd   []string // sorted: component paths of the arguments of the call that entered the gadget layer
 	fp    uint64
 	fpOK  bool
